@@ -72,14 +72,15 @@ func init() {
 			}
 			s := norm(fd.Body)
 			nr := strings.Count(s, "this.raftMu.RLock()")
-			nrd := strings.Count(s, "this.raftMu.RLock()deferthis.raftMu.RUnlock()")
+			// either released by a defer, or held only to copy the group pointer (released on the next line but one)
+			nrd := strings.Count(s, "this.raftMu.RLock()deferthis.raftMu.RUnlock()") + strings.Count(s, "this.raftMu.RLock()group:=this.raftthis.raftMu.RUnlock()")
 			nw := strings.Count(s, "this.raftMu.Lock()")
 			nwd := strings.Count(s, "this.raftMu.Lock()deferthis.raftMu.Unlock()")
 			if nr != nrd || nw != nwd || nr+nw > 1 {
 				balanced = false
 			}
 		}
-		o.def("partitionRaftMuBalanced", "Bool", lbool(balanced), "every raftMu.RLock/Lock in storage/partition.go is the function's first action and is paired with a deferred release")
+		o.def("partitionRaftMuBalanced", "Bool", lbool(balanced), "every raftMu.RLock/Lock in storage/partition.go is paired with a deferred release (or held only to copy the group pointer), at most one per function")
 
 		waits := false
 		if fd := funcDecl(a, "Allocator", "addNodeToPartitions"); fd != nil && strings.Contains(norm(fd.Body), "partition.proposeAddNode(this.ctx,nodeId)") {
